@@ -10,43 +10,54 @@ CLAIMED = {
             'list-based reference model is compared after EVERY step (membership, order, name/alias lookup, back-pointers, rejected '
             'operations leave no trace). Path tree exhausted by CrossHair, z3 deciding feasibility of each operation-code branch.',
             'DESIGN.md 6/C09', 'Open finding c09_rename_contained_table suspends the name-index clauses after the first rename of a contained table; the delete_index defect found by this check was repaired (c0beb09).'),
-    'C17': ('39 inconsistency cases (element kind x missing attribute / detached or mixed reference endpoints x route .sql/.dbml/.table1/'
+    'C17': ('43 inconsistency cases (element kind x missing attribute / detached or mixed reference endpoints, including a look-alike table '
+            'of the same name and column names, and a table removed from its database through an equal twin, x route .sql/.dbml/.table1/'
             '.get_refs) after a symbolic prefix of legal edits, with symbolic names: the documented exception class and nothing else.',
             'DESIGN.md 6/C17', ''),
     'C18': ('Every acyclic inline-reference graph over n tables (symbolic adjacency booleans) x every insertion order x reference kind: '
             'CREATE TABLE statements read back by the DDL reader are a permutation of the tables, rendering is deterministic, the FOREIGN '
-            'KEY clause sits in its key holder, and the target precedes the holder.',
+            'KEY clause sits in its key holder, and the target precedes the holder; after a rendering, an in-place edit of a reference '
+            '(inline-ness, kind flipped so that the key holder changes) gives the script of a never-rendered model with the same content; '
+            'a table without columns (API only) is still created exactly once.',
             'DESIGN.md 6/C18', 'Open finding c18_counting_heuristic: the ordering clause is only asserted where the counting heuristic '
             'of the unchanged tree promises it (target holds more counted inline refs, or as many and was added earlier).'),
     'C03': ('API-built (and one parsed) databases over the cross product of column flags, pk layouts (none / single / composite / pk index '
             '/ both), 10 default kinds incl. 0, False and the empty string, index options (unique, name, 6 types, single / composite / '
             'expression subjects), public and non-public schemas for tables and enums, table / column notes, with symbolic names: '
-            'the statements read back by an independent tokenising DDL reader are exactly the expected ones, each once, nothing else.',
+            'the statements read back by an independent tokenising DDL reader are exactly the expected ones, each once, nothing else; '
+            'enum and table in the same non-public schema, two tables of one bare name in different schemas.',
             'DESIGN.md 6/C03', ''),
     'C04': ('Every reference kind (> < - <>) x single / composite x cross-schema / self reference x inline or not x named or not x '
             'all 36 update/delete action pairs, plus pairs of references and the three surface forms in parsed documents: exactly one '
-            'correctly directed FOREIGN KEY per reference, inline XOR ALTER TABLE, join table for <>, read back by the DDL reader.',
+            'correctly directed FOREIGN KEY per reference, inline XOR ALTER TABLE, join table for <>, read back by the DDL reader; '
+            'layouts: public / other schema, both tables in one non-public schema, self reference inside such a schema, same bare name in two schemas.',
             'DESIGN.md 6/C04', ''),
     'C07': ('One fault per document in six base documents covering every grammar rule: a K-character fragment over the BMP inserted at '
             'token boundaries (accepted => content differs from the base and nothing was dropped) and single-character substitution '
             'over the BMP at every structural delimiter, quote, keyword letter, colour digit and reference operator (accepted => '
             'same delimiter / same letter up to case / hex digit / operator, closed literal sets stay closed). The solver quantifies '
-            'over the replacement characters; positions are enumerated in batches (quick: a stride sample, thorough: all).',
+            'over the replacement characters; positions are enumerated in batches (quick: a stride sample, thorough: all). Settings that '
+            'belong to another context and run-together literals are rejected; after a document that fails behind complete elements, a '
+            'valid document parses to exactly its own content (nothing of the rejected one leaks into a later result).',
             'DESIGN.md 6/C07', 'Open finding c07_unicode_upper_fold (U+0131 / U+017F accepted inside keywords) found by the solver.'),
     'C08': ('Each token of the six base documents (or the inside of each quoted token) replaced by K arbitrary BMP characters, and '
             'K-character soups after 18 structural prefixes (empty input, BOM, comment, inside settings / type arguments / notes / '
             'reference comments ...): parsing raises only parse errors, pydbml.exceptions or SyntaxError, and every database that is '
-            'returned renders (.dbml/.sql of the database and of every element) without raising.',
+            'returned renders (.dbml/.sql of the database and of every element) without raising; every pairing of reference endpoints '
+            'between tables whose generated join-column names can coincide (a.b_c / a_b.c, a column related to itself) x 4 operators x 3 forms.',
             'DESIGN.md 6/C08', 'Three crashes named in the property statement were repaired by fix: commits; open finding c08_huge_integer_default (an integer default of more than 4300 digits) lies outside the K-character bounds and is replayed as a pinned document (see known_findings.json).'),
     'C01': ('Scenario functions per grammar rule (column, table header/body, index, enum, reference, project/group/sticky, whole-document '
             'order and inline-vs-standalone equivalence) build the DBML text in a chosen surface spelling AND the expected content from '
             'the same symbolic arguments; the parsed database must equal the expected content exactly (nothing dropped, nothing extra). '
             'Names and free texts are K-character symbolic holes, setting presence / operator / form selectors are symbolic or fanned out '
-            '(quoting, keyword case, one-line vs multi-line, settings order, body order, schema.name / bare / alias addressing).',
+            '(quoting, keyword case, one-line vs multi-line, settings order, body order, schema.name / bare / alias addressing). Numeric '
+            'defaults keep their literal kind (2.0 and 0.0 are floats, integers beyond 2**53 are exact).',
             'DESIGN.md 6/C01 and 10.5', 'A finding of this check (pyparsing converted \\t etc. inside quoted identifiers) was repaired by a fix: commit.'),
     'C02': ('parse -> .dbml -> parse -> .dbml over the C01 scenario documents and over API-built databases (names that need quoting, '
             'reserved words as names of every element kind, schema-qualified tables and enums, aliases, composite / many-to-many / inline '
-            'references, every column flag and default kind): identical content after re-parse and byte-identical second rendering.',
+            'references, every column flag and default kind, column types mixing dots / arguments / brackets / blanks (17 shapes + a K-character '
+            'type over the deciding characters), code points that are not in a Unicode normal form): identical content after re-parse and '
+            'byte-identical second rendering.',
             'DESIGN.md 6/C02 and 10.5', 'Open findings of the renderer (falsy defaults dropped, enum names with a dot, trimmed reference column names, and the '
             'C13 regions) are excluded by narrow regions (see known_findings.json); instances whose whole domain lies in such a region are '
             'reported as excluded, not as held. Four renderer defects found by this check were repaired by fix: commits.'),
@@ -54,7 +65,8 @@ CLAIMED = {
             'inline / short / block / composite references whose endpoints are addressed by schema.name, bare name or alias (symbolic '
             'selector per endpoint), indexes, a group, a sticky note and a project: every link is checked by object IDENTITY '
             '(reference endpoints, back-pointers of columns / indexes / notes, enum-typed columns, group items, lookup by index / '
-            'name / alias, get_refs, exactly one SQL key holder per reference).',
+            'name / alias, get_refs, exactly one SQL key holder per reference); an alias spelled like the bare name of a public table; '
+            'two sticky notes of one name.',
             'DESIGN.md 6/C05', ''),
     'C06': ('One rule violation per document with the clashing names chosen independently (the solver / path search finds the '
             'equality): duplicate tables (schema x name x alias x position x quoting), enums, groups, a table listed twice in a '
@@ -64,7 +76,8 @@ CLAIMED = {
             'DESIGN.md 6/C06', 'Open finding c06_alias_ignores_schema.'),
     'C10': ('All edit histories of depth D from a menu of 29 in-place edits (renames of tables / schemas / columns / enums / items, '
             'type, flag, default, note, alias changes, reference kind / inline-ness / name / actions, added columns / indexes / items, '
-            'removed indexes) on an API-built database; .dbml and .sql of the edited database and of its elements must equal those of a '
+            'removed indexes) on an API-built database and on the same shapes obtained from the parser (with a second enum of the same name '
+            'in another schema); columns no edit gave a note to must show none; .dbml and .sql of the edited database and of its elements must equal those of a '
             'database freshly rebuilt from the final plain content by an independent rebuild oracle; what the edits intend for the references (kind, inline-ness) and for the index list (order, which index a delete removes) is recorded independently of the model and compared as well.',
             'DESIGN.md 6/C10', ''),
     'C12': ('All eight documented entry points (constructor with str / Path / text file, PyDBML.parse, PyDBML().parse, parse_file with '
@@ -76,13 +89,15 @@ CLAIMED = {
     'C15': ('Documents with 0-2 properties in a table body and / or a column settings list, mixed with ordinary settings, notes and an index '
             'block at symbolic positions, one-line and multi-line, keys from an enumerated set, values symbolic: stored exactly and in '
             'order with the option on, database flag set, round trip through .dbml, flag flips switch rendering, syntax error with the option '
-            'off, and identical parse and renderings under both option values for documents without properties.',
+            'off, and identical parse and renderings under both option values for documents without properties; a property added in place '
+            'to one column / table stays on that object (other objects, later parses and new API objects carry none).',
             'DESIGN.md 6/C15 and 10.5', 'Open finding: key with a keyword prefix. The property-after-newline defect found by this check was repaired.'),
     'C11': ('Sequences parse(A); parse(B); parse(A) where B is valid, syntactically faulty (symbolic garbage character), fails in the build '
             'stage, or is parsed with other options: equal content for A both times; two results of one document share no object and '
             'edits to one (project items, properties, notes, tables, names, enum items, index subjects) change neither the other nor a '
             'later parse. Re-entrancy and no-retention are decided through NON-INTERFERENCE: a write monitor over every pre-existing grammar '
-            'element plus a fingerprint of the grammar graph, blueprint / parser classes and definitions modules must show no change.',
+            'element plus a fingerprint of the grammar graph, blueprint / parser classes and definitions modules must show no change - '
+            'after the calls and also WHILE a parse call is in progress (a probe document inspects the shared state from inside the call).',
             'DESIGN.md 6/C11', 'Thread schedules are not explored and the garbage collector is not modelled: the concurrency clause rests on '
             'the non-interference argument (stated assumptions), the reclaim clause is only checked by weakref + gc in the untraced native runs.'),
     'C14': ('A comment (// or /* */, own line or end of line, K-character symbolic body with quotes, braces and syntax characters) at every '
@@ -94,7 +109,9 @@ CLAIMED = {
     'C16': ('Default renderers: each table / enum / standalone reference / group / sticky note / project text appears exactly once in the '
             'database text, for every evaluation order of element and database renderings, with no side effect on the model. Custom '
             'partial renderer classes (handler masks fanned out) given to Database or passed through the parser: attached elements and '
-            'their columns render through them, unhandled types give the empty string, detached elements use the defaults.',
+            'their columns render through them, unhandled types give the empty string, detached elements use the defaults (also an '
+            'element removed through an equal twin object). The custom class is derived from BaseRenderer or from the default renderer '
+            'class (registry of its own), used before or after a database with the default renderers has rendered, whose renderings must not change.',
             'DESIGN.md 6/C16', ''),
 }
 _PENDING = 'check under construction in this session (harness not yet committed); not claimed until it runs clean on the unchanged tree'
